@@ -187,7 +187,8 @@ def campaign(c):
     from .C11 import SRC_OF, CTOR_SRC, E2E_HEAD, REPS, decl_type
     B = (14 + 24) * 8
     for f in lib.funcs:
-        if f['return_type'] in ('Pkt', 'PktGen', 'TimeJump'): continue
+        from ..gen import doc_return_type
+        if (doc_return_type(f) or f['return_type'].lower()) in ('pkt', 'pktgen', 'timejump'): continue      # what the shipped documentation says it returns
         args = []
         for a in f['args']:
             if a['kind'] != 'pos': continue
